@@ -522,17 +522,20 @@ func (g *G) strategy(p string) (*ye.Node, []string) {
 		keys = nil
 	} else {
 		m := umap("matrix", true)
-		keys = append(keys, "os")
-		m.Set("os", ye.L(tmpl("ubuntu-latest", p+".strategy.matrix.<row>", av), tmpl("macos-latest", p+".strategy.matrix.<row>", av)))
-		if g.b("mrow2") {
+		includeOnly := g.i("mincludeonly", 0, 5) == 0 // a matrix defined by include entries alone
+		if !includeOnly {
+			keys = append(keys, "os")
+			m.Set("os", ye.L(tmpl("ubuntu-latest", p+".strategy.matrix.<row>", av), tmpl("macos-latest", p+".strategy.matrix.<row>", av)))
+		}
+		if !includeOnly && g.b("mrow2") {
 			keys = append(keys, "ver")
 			m.Set("ver", ye.L(tmpl("1", p+".strategy.matrix.<row>", av), tmpl("2", p+".strategy.matrix.<row>", av)))
 		}
-		if g.b("mrowexpr") {
+		if !includeOnly && g.b("mrowexpr") {
 			keys = append(keys, "dyn")
 			m.Set("dyn", leaf("${{ fromJSON(github.event.client_payload.list) }}", p+".strategy.matrix.<row>", av, Leaf{Template: true, Typed: "arr", Config: "row-as-expression"}))
 		}
-		if g.b("mobj") {
+		if !includeOnly && g.b("mobj") {
 			keys = append(keys, "cfg")
 			o := ye.M()
 			o.Set("k", tmpl("v", p+".strategy.matrix.<row>.<nested-map>", av))
@@ -542,7 +545,7 @@ func (g *G) strategy(p string) (*ye.Node, []string) {
 			o2.Set("l", ye.L(tmpl("x", p+".strategy.matrix.<row>.<nested-map>.<nested-seq>", av), tmpl("2", p+".strategy.matrix.<row>.<nested-map>.<nested-seq>", av)))
 			m.Set("cfg", ye.L(o, o2))
 		}
-		if g.b("mnested") {
+		if !includeOnly && g.b("mnested") {
 			keys = append(keys, "grid")
 			// heterogeneous nested sequences
 			mk := func(v string) *ye.Node {
@@ -555,7 +558,7 @@ func (g *G) strategy(p string) (*ye.Node, []string) {
 			inner1.Flow, inner2.Flow = g.b("flow1"), g.b("flow2")
 			m.Set("grid", ye.L(inner1, inner2))
 		}
-		if g.b("minc") {
+		if includeOnly || g.b("minc") {
 			incs := ye.L()
 			inc := ye.M()
 			inc.Set("os", tmpl("windows-latest", p+".strategy.matrix.include.<key>", av))
@@ -578,7 +581,7 @@ func (g *G) strategy(p string) (*ye.Node, []string) {
 			m.Set("include", leaf("${{ fromJSON(github.event.client_payload.include) }}", p+".strategy.matrix.include", av, Leaf{Template: true, Typed: "arr", Config: "include-as-expression"}))
 			keys = nil
 		}
-		if g.b("mexc") {
+		if !includeOnly && g.b("mexc") {
 			if g.b("mexcexpr") {
 				m.Set("exclude", leaf("${{ fromJSON(github.event.client_payload.exclude) }}", p+".strategy.matrix.exclude", av, Leaf{Template: true, Typed: "arr", Config: "exclude-as-expression"}))
 			} else {
@@ -777,7 +780,7 @@ func (g *G) step(ids *[]string) *ye.Node {
 	var s *ye.Node
 	if g.b("isrun") {
 		s = sec("run-step")
-		run := tmpl(g.pick("runv", []string{"echo hello", "make test", "echo ${{ github.sha }}"}), p+".run", p+".run")
+		run := tmpl(g.pick("runv", []string{"echo hello", "make test", "echo ${{ github.sha }}", "echo \"name=value\" >> \"$GITHUB_OUTPUT\""}), p+".run", p+".run")
 		LeafOf(run).Script = true
 		s.Set("run", run)
 		if g.b("sshell") {
@@ -878,4 +881,19 @@ func isNumber(s string) bool {
 		}
 	}
 	return true
+}
+
+// ShuffleKeys randomly permutes the entries of every mapping (key order carries no meaning in YAML
+// mappings, but parsers that handle keys sequentially may depend on it).
+func (g *G) ShuffleKeys(root *ye.Node) {
+	root.Walk(func(n, _ *ye.Node, _ int, _ bool) {
+		if n.Kind != ye.Map || len(n.Keys) < 2 {
+			return
+		}
+		for i := len(n.Keys) - 1; i > 0; i-- {
+			j := g.i("shuffle", 0, i)
+			n.Keys[i], n.Keys[j] = n.Keys[j], n.Keys[i]
+			n.Vals[i], n.Vals[j] = n.Vals[j], n.Vals[i]
+		}
+	})
 }
